@@ -232,6 +232,7 @@ structure WFc (keyEq : κ → κ → Bool) (c : Core κ) : Prop where
   out_prim : c.outStopped = true → c.primary = true
   disp_prim : c.rcdDisposed = true → c.primary = true
   prim_cnt : c.primary = true → c.rcdDisposed = false → c.count ≠ 0
+  nr : c.rcdDisposed = true → ∀ r ∈ c.gs, r.holdsRef = false
 
 theorem mem_modify {A} {l : List A} {g : Nat} {f : A → A} {x : A} (h : x ∈ l.modify g f) :
     x ∈ l ∨ ∃ a, l[g]? = some a ∧ x = f a := by
@@ -283,16 +284,27 @@ theorem mem_of_getElem? {A} {l : List A} {g : Nat} {a : A} (h : l[g]? = some a) 
 variable {keyEq : κ → κ → Bool}
 
 theorem wf_aGd {c : Core κ} (h : WFc keyEq c) : WFc keyEq (aGd c) :=
-  ⟨h.shape, h.uniq, h.act_open, h.ref_act, h.cnt, by simp [aGd], h.out_prim, h.disp_prim, h.prim_cnt⟩
+  ⟨h.shape, h.uniq, h.act_open, h.ref_act, h.cnt, by simp [aGd], h.out_prim, h.disp_prim, h.prim_cnt, h.nr⟩
 
 /-- `RefCountDisposable.dispose()` right after the outer AutoDetachObserver stopped -/
 theorem wf_aDispose {c : Core κ} (h : WFc keyEq c) : WFc keyEq (aDispose { c with outStopped := true }) ∧
     (aDispose { c with outStopped := true }).primary = true := by
-  obtain ⟨hs, hu, ha, hr, hc, hl, ho, hd, hp⟩ := h
+  obtain ⟨hs, hu, ha, hr, hc, hl, ho, hd, hp, hn⟩ := h
+  have hz : c.rcdDisposed = false → c.count = 0 → ∀ r ∈ c.gs, r.holdsRef = false := by
+    intro h1 h3 r hr'
+    have := hc h1; rw [h3] at this
+    have := List.countP_eq_zero.mp this.symm r hr'
+    simpa using this
   unfold aDispose aGd
   by_cases h1 : c.rcdDisposed <;> by_cases h2 : c.primary <;> by_cases h3 : c.count = 0 <;>
     simp only [h1, h2, h3, if_true, if_false, Bool.false_eq_true, Bool.not_true, Bool.not_false, beq_self_eq_true, beq_iff_eq] <;>
-    refine ⟨⟨?_, ?_, ?_, ?_, ?_, ?_, ?_, ?_, ?_⟩, ?_⟩ <;> simp_all
+    refine ⟨⟨?_, ?_, ?_, ?_, ?_, ?_, ?_, ?_, ?_, ?_⟩, ?_⟩ <;>
+    first
+    | (simp_all; done)
+    | (intro hd' r hr'
+       first
+       | exact hn (by simpa using h1) r hr'
+       | exact hz (by simpa using h1) (by simpa using h3) r hr')
 
 theorem aSubEnd_gs (c : Core κ) (g : Nat) :
     (aSubEnd c g).gs = c.gs.modify g fun r => { r with sub := .ended, holdsRef := false } := by
@@ -310,10 +322,10 @@ theorem aSubEnd_gs (c : Core κ) (g : Nat) :
     · split <;> rfl
 
 theorem wf_aSubEnd {c : Core κ} (h : WFc keyEq c) (g : Nat) : WFc keyEq (aSubEnd c g) := by
-  obtain ⟨hs, hu, ha, hr, hc, hl, ho, hd, hp⟩ := h
+  obtain ⟨hs, hu, ha, hr, hc, hl, ho, hd, hp, hn⟩ := h
   unfold aSubEnd
   cases hg : c.gs[g]? with
-  | none => exact ⟨hs, hu, ha, hr, hc, hl, ho, hd, hp⟩
+  | none => exact ⟨hs, hu, ha, hr, hc, hl, ho, hd, hp, hn⟩
   | some r =>
     have hmem := mem_of_getElem? hg
     have hshape : liveW (c.gs.modify g fun r => { r with sub := .ended, holdsRef := false }) 0 = liveW c.gs 0 :=
@@ -328,15 +340,31 @@ theorem wf_aSubEnd {c : Core κ} (h : WFc keyEq c) (g : Nat) : WFc keyEq (aSubEn
       · intro h; cases h
     have hcnt := countP_modify_at c.gs g (fun r => { r with sub := SubSt.ended, holdsRef := false }) r hg
     simp only [Bool.toNat_false, Nat.add_zero] at hcnt
+    have hNR : ∀ x ∈ c.gs.modify g (fun r => { r with sub := SubSt.ended, holdsRef := false }),
+        (c.rcdDisposed = true ∨ (c.gs.modify g (fun r => { r with sub := SubSt.ended, holdsRef := false })).countP (·.holdsRef) = 0) →
+        x.holdsRef = false := by
+      intro x hx hor
+      rcases hor with hd' | hz
+      · rcases mem_modify hx with h | ⟨a, _, rfl⟩
+        · exact hn hd' x h
+        · rfl
+      · have := List.countP_eq_zero.mp hz x hx
+        simpa using this
     simp only
     by_cases hh : r.holdsRef
     · simp only [hh, if_true, Bool.toNat_true] at hcnt ⊢
       unfold aRelease aGd aMod
       by_cases h1 : c.rcdDisposed <;> by_cases h2 : c.primary <;> by_cases h3 : c.count - 1 = 0 <;>
         simp only [h1, h2, h3, if_true, if_false, Bool.false_eq_true, Bool.and_true, Bool.and_false, beq_self_eq_true, beq_iff_eq] <;>
-        refine ⟨by simpa [hshape] using hs, hu, hA, hR, ?_, ?_, ?_, ?_, ?_⟩ <;> simp_all <;> omega
+        refine ⟨by simpa [hshape] using hs, hu, hA, hR, ?_, ?_, ?_, ?_, ?_, ?_⟩ <;>
+        first
+        | (simp_all <;> omega)
+        | (intro hd' x hx; apply hNR x hx
+           first
+           | (left; simpa using h1)
+           | (right; have hc' := hc (by simpa using h1); omega))
     · simp only [hh, Bool.false_eq_true, if_false, aMod, Bool.toNat_false, Nat.add_zero] at hcnt ⊢
-      refine ⟨by simpa [hshape] using hs, hu, hA, hR, ?_, hl, ho, hd, hp⟩
+      refine ⟨by simpa [hshape] using hs, hu, hA, hR, ?_, hl, ho, hd, hp, fun hd' x hx => hNR x hx (Or.inl hd')⟩
       intro hd'
       simpa [hcnt] using hc hd'
 
@@ -383,10 +411,14 @@ theorem aWTerm_gs (c : Core κ) (g : Nat) : (aWTerm c g).gs = c.gs.modify g term
 /-- marking a group without active subscriber as stopped keeps the invariant -/
 theorem wf_stop {c : Core κ} (h : WFc keyEq c) (g : Nat) (hg : ∀ r, c.gs[g]? = some r → r.sub ≠ .active) :
     WFc keyEq (aMod c g fun r => { r with stopped := true }) := by
-  obtain ⟨hs, hu, ha, hr, hc, hl, ho, hd, hp⟩ := h
+  obtain ⟨hs, hu, ha, hr, hc, hl, ho, hd, hp, hn⟩ := h
   have hshape : liveW (c.gs.modify g fun r => { r with stopped := true }) 0 = liveW c.gs 0 :=
     liveW_modify _ _ _ _ (fun _ => rfl) (fun _ => rfl)
-  refine ⟨by simpa [aMod, hshape] using hs, hu, ?_, ?_, ?_, hl, ho, hd, hp⟩
+  refine ⟨by simpa [aMod, hshape] using hs, hu, ?_, ?_, ?_, hl, ho, hd, hp, ?_⟩
+  rotate_right
+  · intro hd' x hx; rcases mem_modify hx with h | ⟨a, h', rfl⟩
+    · exact hn hd' x h
+    · exact hn hd' a (mem_of_getElem? h')
   · intro x hx; rcases mem_modify hx with h | ⟨a, h', rfl⟩
     · exact ha x h
     · intro h; exact absurd h (hg a h')
@@ -538,7 +570,7 @@ theorem aErrorAll_srcStopped {c : Core κ} (h : WFc keyEq c) (hes : ESc c) : (aE
       rw [hall r hr] at this; cases this
   unfold aErrorAll aOuterTerm aDispose aGd
   generalize aTermAll c = d at *
-  obtain ⟨_, _, _, _, _, hl, ho, hd, hp⟩ := hw
+  obtain ⟨_, _, _, _, _, hl, ho, hd, hp, _⟩ := hw
   by_cases h0 : d.outStopped <;> by_cases h1 : d.rcdDisposed <;> by_cases h2 : d.primary <;> by_cases h3 : d.count = 0 <;>
     simp_all
 /-! ### the tracked part of every group: key, writer state, writer log -/
@@ -765,12 +797,18 @@ theorem wf_aSubscribe {c : Core κ} (h : WFc keyEq c) (g : Nat) : WFc keyEq (aSu
             · simp [hpr]
         rw [this]; exact wf_aSubEnd h g
       · simp only [h2, Bool.not_false, if_true]
-        obtain ⟨hs, hu, ha, hr, hc, hl, ho, hd, hp⟩ := h
+        obtain ⟨hs, hu, ha, hr, hc, hl, ho, hd, hp, hn⟩ := h
         have hshape : liveW (c.gs.modify g fun r => { r with sub := .active, holdsRef := !c.rcdDisposed }) 0 = liveW c.gs 0 :=
           liveW_modify _ _ _ _ (fun _ => rfl) (fun _ => rfl)
         have hcnt := countP_modify_at c.gs g (fun r => { r with sub := .active, holdsRef := !c.rcdDisposed }) r hg
         simp only [href, Bool.toNat_false, Nat.add_zero] at hcnt
-        refine ⟨by simpa [aMod, hshape] using hs, hu, ?_, ?_, ?_, hl, ho, hd, ?_⟩
+        refine ⟨by simpa [aMod, hshape] using hs, hu, ?_, ?_, ?_, hl, ho, hd, ?_, ?_⟩
+        rotate_right
+        · intro hd' x hx
+          simp only [aMod] at hd' hx
+          rcases mem_modify hx with h | ⟨a, h', rfl⟩
+          · exact hn hd' x h
+          · simp [hd']
         · intro x hx; rcases mem_modify hx with h | ⟨a, h', rfl⟩
           · exact ha x h
           · intro _; rw [hg] at h'; cases h'; simpa using h2
@@ -878,9 +916,13 @@ theorem wf_aExpire (hrefl : ∀ k, keyEq k k = true) {c : Core κ} (h : WFc keyE
       simp only
       apply wf_aWTerm
       have he := hne r hg
-      obtain ⟨hs, hu, ha, hr, hc, hl, ho, hd, hp⟩ := h
+      obtain ⟨hs, hu, ha, hr, hc, hl, ho, hd, hp, hn⟩ := h
       have hcnt := countP_modify_at c.gs g (fun r => { r with expired := true }) r hg
-      refine ⟨?_, ?_, ?_, ?_, ?_, hl, ho, hd, hp⟩
+      refine ⟨?_, ?_, ?_, ?_, ?_, hl, ho, hd, hp, ?_⟩
+      rotate_right
+      · intro hd' x hx; rcases mem_modify hx with h | ⟨a, h', rfl⟩
+        · exact hn hd' x h
+        · exact hn hd' a (mem_of_getElem? h')
       · simp only [aMod]
         rw [liveW_expire hrefl c.gs g 0 r hg he (by rw [← hs]; exact hu), hs]
       · exact List.Pairwise.sublist (List.eraseP_sublist) hu
@@ -1143,6 +1185,28 @@ theorem inv_subscribeGroup {cfg : Cfg α κ β} {s : St κ β} (h : Inv cfg s) (
     (by intro hs; have := congrArg Core.srcStopped (core_subscribeGroup s g)
         simp only [core_srcStopped] at this; rw [this]; exact aSubscribe_mono _ _ hs)
 
+theorem subscribeLate_cases (s : St κ β) (g : Nat) :
+    subscribeLate s g = s ∨ subscribeLate s g = modGrp (subscribeGroup s g) g (fun r => { r with subLate := true }) := by
+  unfold subscribeLate; split
+  · split
+    · right; rfl
+    · left; rfl
+  · left; rfl
+
+theorem inv_markLate {cfg : Cfg α κ β} {s : St κ β} (h : Inv cfg s) (g : Nat) :
+    Inv cfg (modGrp s g fun r => { r with subLate := true }) :=
+  inv_of_trk_same h (by unfold WF; rw [core_modGrp_same]; exact h.wf; intro _; rfl)
+    (by rw [trk_modGrp_same]; intro _; rfl) (DE_modGrp s g _ (fun _ => ⟨id, rfl⟩)) (fun hs => hs)
+
+theorem inv_subscribeLate {cfg : Cfg α κ β} {s : St κ β} (h : Inv cfg s) (g : Nat) : Inv cfg (subscribeLate s g) := by
+  rcases subscribeLate_cases s g with e | e <;> rw [e]
+  · exact h
+  · exact inv_markLate (inv_subscribeGroup h g) g
+
+theorem trk_subscribeLate (s : St κ β) (g : Nat) : trk (subscribeLate s g) = trk s := by
+  rcases subscribeLate_cases s g with e | e <;> rw [e]
+  rw [trk_modGrp_same, trk_subscribeGroup]; intro _; rfl
+
 theorem inv_subEnd {cfg : Cfg α κ β} {s : St κ β} (h : Inv cfg s) (g : Nat) : Inv cfg (subEnd s g) :=
   inv_of_trk_same h (by unfold WF; rw [core_subEnd]; exact wf_aSubEnd h.wf g) (trk_subEnd s g) (DE_subEnd s g)
     (by intro hs; have := congrArg Core.srcStopped (core_subEnd s g)
@@ -1317,10 +1381,11 @@ theorem inv_durEvent {cfg : Cfg α κ β} (hrefl : ∀ k, cfg.keyEq k k = true) 
 variable {keyEq : κ → κ → Bool}
 
 theorem wf_announced {c : Core κ} (h : WFc keyEq c) (g : Nat) : WFc keyEq (aMod c g fun r => { r with announced := true }) := by
-  obtain ⟨hs, hu, ha, hr, hc, hl, ho, hd, hp⟩ := h
+  obtain ⟨hs, hu, ha, hr, hc, hl, ho, hd, hp, hn⟩ := h
   have hshape : liveW (c.gs.modify g fun r => { r with announced := true }) 0 = liveW c.gs 0 :=
     liveW_modify _ _ _ _ (fun _ => rfl) (fun _ => rfl)
-  refine ⟨by simpa [aMod, hshape] using hs, hu, ?_, ?_, ?_, hl, ho, hd, hp⟩
+  refine ⟨by simpa [aMod, hshape] using hs, hu, ?_, ?_, ?_, hl, ho, hd, hp,
+    fun hd' => all_modify (P := fun x : CG κ => x.holdsRef = false) (hn hd') (fun a h => h)⟩
   · exact all_modify (P := fun x : CG κ => x.sub = SubSt.active → x.stopped = false) ha (fun a h => h)
   · exact all_modify (P := fun x : CG κ => x.holdsRef = true → x.sub = SubSt.active) hr (fun a h => h)
   · intro hd'
@@ -1343,8 +1408,12 @@ theorem liveW_append (l : List (CG κ)) (x : CG κ) (i : Nat) :
 
 theorem wf_append {c : Core κ} (h : WFc keyEq c) (k : κ) (hf : c.writers.find? (fun p => keyEq p.1 k) = none) :
     WFc keyEq { c with gs := c.gs ++ [⟨k, false, false, false, .none, false⟩], writers := c.writers ++ [(k, c.gs.length)] } := by
-  obtain ⟨hs, hu, ha, hr, hc, hl, ho, hd, hp⟩ := h
-  refine ⟨?_, ?_, ?_, ?_, ?_, hl, ho, hd, hp⟩
+  obtain ⟨hs, hu, ha, hr, hc, hl, ho, hd, hp, hn⟩ := h
+  refine ⟨?_, ?_, ?_, ?_, ?_, hl, ho, hd, hp, ?_⟩
+  rotate_right
+  · intro hd' x hx; rcases List.mem_append.mp hx with h | h
+    · exact hn hd' x h
+    · simp only [List.mem_singleton] at h; subst h; rfl
   · simp only [liveW_append, Bool.false_eq_true, if_false, Nat.zero_add]; rw [hs]
   · rw [List.pairwise_append]
     refine ⟨hu, by simp, ?_⟩
@@ -1514,7 +1583,7 @@ theorem inv_step {cfg : Cfg α κ β} (hrefl : ∀ k, cfg.keyEq k k = true) {s :
         exact inv_closeSrc (inv_termOuter h0.wf h0.es h0.dl _ _).1
   | dur g n => exact inv_durEvent hrefl h g n
   | disposeOuter => exact inv_disposeOuter h
-  | subGroup g => exact inv_subscribeGroup h g
+  | subGroup g => exact inv_subscribeLate h g
   | disposeGroup g =>
     simp only [step]
     split
@@ -1524,7 +1593,7 @@ theorem inv_step {cfg : Cfg α κ β} (hrefl : ∀ k, cfg.keyEq k k = true) {s :
     · exact h
 
 theorem inv_init (cfg : Cfg α κ β) : Inv cfg (init : St κ β) := by
-  refine ⟨⟨rfl, List.Pairwise.nil, ?_, ?_, ?_, ?_, ?_, ?_, ?_⟩, ?_, ?_, ?_⟩ <;> simp [init, core, trk, ES, DL, LO]
+  refine ⟨⟨rfl, List.Pairwise.nil, ?_, ?_, ?_, ?_, ?_, ?_, ?_, ?_⟩, ?_, ?_, ?_⟩ <;> simp [init, core, trk, ES, DL, LO]
 
 theorem inv_run {cfg : Cfg α κ β} (hrefl : ∀ k, cfg.keyEq k k = true) {s : St κ β} (h : Inv cfg s) (evs : List (Ev α)) :
     Inv cfg (run cfg s evs) := by
@@ -1922,7 +1991,7 @@ theorem tev_step (cfg : Cfg α κ β) (s : St κ β) (e : Ev α) : TEv (trk s) (
       · exact TEv.refl _
     · exact TEv.refl _
   | disposeOuter => simp only [step]; rw [trk_rcdDispose]; exact TEv.refl _
-  | subGroup g => simp only [step]; rw [trk_subscribeGroup]; exact TEv.refl _
+  | subGroup g => simp only [step]; rw [trk_subscribeLate]; exact TEv.refl _
   | disposeGroup g =>
     simp only [step]
     split
@@ -2392,4 +2461,337 @@ theorem partition_core (indexed : Bool) (p : α → Nat → Bool) (xs : List α)
   simp only [Part.run, List.nil_append]
   exact (Part.step_term indexed _ _ _ _ _ _ n hn).1
 
+end WinGrp
+
+/-! ## durations derived from the group (`stepD`) -/
+namespace WinGrp
+variable {α κ β : Type}
+
+/-! ### `stepD` (durations that may be derived from the group) coincides with `step` when no duration is -/
+section noDerived
+variable {cfg : Cfg α κ β} (hnod : ∀ g, cfg.dgrp g = none)
+include hnod
+
+theorem writerNextD_eq (s : St κ β) (g : Nat) (v : β) : writerNextD cfg s g v = writerNext s g v := by
+  unfold writerNextD writerNext
+  cases s.groups[g]? with
+  | none => rfl
+  | some r => by_cases hs : r.stopped <;> simp [hnod g, hs]
+
+theorem writerTermWith_eq (errAll : St κ β → Err → St κ β) (s : St κ β) (g : Nat) (n : Notif β) :
+    writerTermWith cfg errAll s g n = writerTerm s g n := by
+  unfold writerTermWith writerTerm
+  cases s.groups[g]? with
+  | none => rfl
+  | some r => by_cases hs : r.stopped <;> simp [hnod g, hs]
+
+theorem errorAllD_eq (fuel : Nat) (s : St κ β) (e : Err) : errorAllD cfg fuel s e = errorAll s e := by
+  cases fuel with
+  | zero => rfl
+  | succ f =>
+    simp only [errorAllD, errorAll, termAll]
+    congr 1
+    congr 1
+    funext s g
+    exact writerTermWith_eq hnod _ s g _
+
+theorem errAllD_eq (s : St κ β) (e : Err) : errAllD cfg s e = errorAll s e := errorAllD_eq hnod _ s e
+
+theorem completeAllD_eq (s : St κ β) : completeAllD cfg s = termAll s .completed := by
+  simp only [completeAllD, termAll]
+  congr 1
+  funext s g
+  exact writerTermWith_eq hnod _ s g _
+
+theorem durFireD_eq (s : St κ β) (g : Nat) (n : Notif Unit) : durFireD cfg s g n = durFire cfg s g n := by
+  cases n <;> simp [durFireD, durFire, errAllD_eq hnod]
+
+theorem durEventD_eq (s : St κ β) (g : Nat) (n : Notif Unit) : durEventD cfg s g n = durEvent cfg s g n := by
+  unfold durEventD durEvent
+  cases s.groups[g]? with
+  | none => rfl
+  | some r => simp [hnod g, durFireD_eq hnod]
+
+theorem pushElemD_eq (s : St κ β) (g : Nat) (x : α) : pushElemD cfg s g x = pushElem cfg s g x := by
+  unfold pushElemD pushElem
+  cases cfg.elemMapper x <;> simp [errAllD_eq hnod, writerNextD_eq hnod]
+
+theorem announceD_eq (s : St κ β) (g : Nat) (k : κ) : announceD cfg s g k = announce cfg s g k := by
+  unfold announceD announce
+  simp only [hnod g]
+  cases cfg.dsync g <;> simp [durFireD_eq hnod]
+
+theorem srcNextD_eq (s : St κ β) (x : α) : srcNextD cfg s x = srcNext cfg s x := by
+  unfold srcNextD srcNext
+  cases cfg.keyMapper x with
+  | error e => simp [errAllD_eq hnod]
+  | ok k =>
+    simp only
+    cases s.writers.find? (fun p => cfg.keyEq p.1 k) with
+    | some p => simp [pushElemD_eq hnod]
+    | none =>
+      simp only
+      cases cfg.subjMapper s.groups.length with
+      | error e => simp [errAllD_eq hnod]
+      | ok u =>
+        simp only
+        cases cfg.durMapper s.groups.length with
+        | error e => simp [errAllD_eq hnod]
+        | ok u' => simp [pushElemD_eq hnod, announceD_eq hnod]
+
+theorem stepD_eq_step (s : St κ β) (e : Ev α) : stepD cfg s e = step cfg s e := by
+  cases e with
+  | src n =>
+    cases n <;> simp [stepD, step, srcNextD_eq hnod, errAllD_eq hnod, completeAllD_eq hnod]
+  | dur g n => simp [stepD, step, durEventD_eq hnod]
+  | disposeOuter => rfl
+  | subGroup g => rfl
+  | disposeGroup g => rfl
+
+theorem runD_eq_run (s : St κ β) (evs : List (Ev α)) : runD cfg s evs = run cfg s evs := by
+  induction evs generalizing s with
+  | nil => rfl
+  | cons e es ih => simp [runD, run, stepD_eq_step hnod, ih]
+end noDerived
+
+/-! ### order of effects when a group is created; group-derived durations -/
+theorem OutU_rcdRelease (s : St κ β) : OutU s (rcdRelease s) := by
+  unfold rcdRelease; split
+  · exact OutU.refl _
+  · simp only; split
+    · exact (OutU_of_out_eq rfl : OutU s { s with count := s.count - 1, rcdDisposed := true }).trans (OutU_gdDispose _)
+    · exact OutU_of_out_eq rfl
+
+theorem OutU_subEnd (s : St κ β) (g : Nat) : OutU s (subEnd s g) := by
+  unfold subEnd; split
+  · simp only; split
+    · exact (OutU_of_out_eq rfl : OutU s (modGrp s g _)).trans (OutU_rcdRelease _)
+    · exact OutU_of_out_eq rfl
+  · exact OutU.refl _
+
+theorem modGrp_get (s : St κ β) (g : Nat) (f : Grp κ β → Grp κ β) :
+    (modGrp s g f).groups[g]? = (s.groups[g]?).map f := by
+  simp [modGrp, List.getElem?_modify]
+
+theorem addGroup_get (s : St κ β) (k : κ) : (addGroup s k).groups[s.groups.length]? = some { key := k } := by
+  simp [addGroup]
+
+/-- subscribing to an announced, open group without subscriber -/
+theorem subscribeGroup_open (s : St κ β) (g : Nat) (r : Grp κ β) (hg : s.groups[g]? = some r) (h1 : r.sub = .none)
+    (h2 : r.announced = true) (h3 : r.stopped = false) :
+    subscribeGroup s g = modGrp { s with count := if (!s.rcdDisposed) = true then s.count + 1 else s.count } g
+      (fun r => { r with sub := .active, holdsRef := !s.rcdDisposed }) := by
+  unfold subscribeGroup
+  simp [hg, h1, h2, h3]
+
+/-- the step that creates group `g` for element `x` (key `k`, mapped value `v`), as a composition -/
+theorem stepD_new_group (cfg : Cfg α κ β) (s : St κ β) (x : α) (k : κ) (v : β)
+    (hs : s.srcStopped = false) (hk : cfg.keyMapper x = .ok k)
+    (hf : s.writers.find? (fun p => cfg.keyEq p.1 k) = none)
+    (hsm : cfg.subjMapper s.groups.length = .ok ()) (hdm : cfg.durMapper s.groups.length = .ok ())
+    (hv : cfg.elemMapper x = .ok v) :
+    stepD cfg s (.src (.next x)) = writerNextD cfg (announceD cfg (addGroup s k) s.groups.length k) s.groups.length v := by
+  show (if s.srcStopped = true then s else srcNextD cfg s x) = _
+  rw [if_neg (by simp [hs])]
+  unfold srcNextD
+  simp only [hk, hf, hsm, hdm]
+  unfold pushElemD
+  simp only [hv]
+  rfl
+
+/-- the state after `observer.on_next(group)` for the fresh group g (outer subscriber live, RefCountDisposable live) -/
+def announced1 (cfg : Cfg α κ β) (s : St κ β) (k : κ) : St κ β :=
+  let g := s.groups.length
+  let t := emit (modGrp (addGroup s k) g fun r => { r with announced := true }) (.outer (.next (g, k)))
+  if cfg.imm g then subscribeGroup t g else t
+
+theorem announced1_facts (cfg : Cfg α κ β) (s : St κ β) (k : κ) (hd : s.rcdDisposed = false) :
+    (announced1 cfg s k).out = s.out ++ [.outer (.next (s.groups.length, k))] ∧ (announced1 cfg s k).rcdDisposed = false ∧
+    (announced1 cfg s k).writers = s.writers ++ [(k, s.groups.length)] ∧
+    (announced1 cfg s k).groups[s.groups.length]? =
+      some { key := k, announced := true, sub := (if cfg.imm s.groups.length then SubSt.active else SubSt.none),
+             holdsRef := cfg.imm s.groups.length } := by
+  have hg1 : (emit (modGrp (addGroup s k) s.groups.length fun r => { r with announced := true })
+      (.outer (.next (s.groups.length, k)))).groups[s.groups.length]? = some { key := k, announced := true } := by
+    have := modGrp_get (addGroup s k) s.groups.length (fun r => { r with announced := true })
+    rw [addGroup_get] at this
+    exact this
+  by_cases hi : cfg.imm s.groups.length = true
+  · have e := subscribeGroup_open _ _ _ hg1 rfl rfl rfl
+    unfold announced1
+    simp only [hi, if_true]
+    rw [e]
+    refine ⟨rfl, hd, rfl, ?_⟩
+    rw [modGrp_get]
+    show Option.map _ ((emit (modGrp (addGroup s k) s.groups.length fun r => { r with announced := true })
+      (.outer (.next (s.groups.length, k)))).groups[s.groups.length]?) = _
+    rw [hg1]
+    simp [hi, hd, addGroup]
+  · unfold announced1
+    simp only [hi, Bool.false_eq_true, if_false]
+    refine ⟨rfl, hd, rfl, ?_⟩
+    rw [hg1]
+
+/-- `announceD` for the fresh group, as `announced1` followed by the duration subscription -/
+theorem announceD_fresh (cfg : Cfg α κ β) (s : St κ β) (k : κ) (ho : s.outStopped = false) (hd : s.rcdDisposed = false)
+    (hdur : (cfg.dgrp s.groups.length).isSome = true ∨ cfg.dsync s.groups.length = none) :
+    announceD cfg (addGroup s k) s.groups.length k =
+      emit (modGrp (announced1 cfg s k) s.groups.length fun r =>
+        { r with dur := .live, dcnt := (cfg.dgrp s.groups.length).getD r.dcnt }) (.subDur s.groups.length) := by
+  have hd2 := (announced1_facts cfg s k hd).2.1
+  have ho' : (addGroup s k).outStopped = false := ho
+  unfold announceD
+  simp only [ho', Bool.false_eq_true, if_false]
+  have e1 : (if cfg.imm s.groups.length = true then
+      subscribeGroup (emit (modGrp (addGroup s k) s.groups.length fun r => { r with announced := true })
+        (Eff.outer (Notif.next (s.groups.length, k)))) s.groups.length
+      else emit (modGrp (addGroup s k) s.groups.length fun r => { r with announced := true })
+        (Eff.outer (Notif.next (s.groups.length, k)))) = announced1 cfg s k := rfl
+  rw [e1]
+  cases hdg : cfg.dgrp s.groups.length with
+  | some n => simp [hd2]
+  | none =>
+    have hds : cfg.dsync s.groups.length = none := by
+      rcases hdur with h | h
+      · rw [hdg] at h; cases h
+      · exact h
+    simp [hds, hd2]
+
+/-- **group_announced_before_duration_before_element** (effects of the step that creates a group, in order):
+the outer subscriber is handed the group, then the duration is subscribed, then the element is pushed to the writer
+(and reaches the subscriber attached inside the outer `on_next`).  Holds for every state (not only reachable ones)
+in which the source and the outer subscriber are live and the RefCountDisposable is not disposed. -/
+theorem group_announced_before_duration_before_element (cfg : Cfg α κ β) (s : St κ β) (x : α) (k : κ) (v : β)
+    (hs : s.srcStopped = false) (ho : s.outStopped = false) (hd : s.rcdDisposed = false)
+    (hk : cfg.keyMapper x = .ok k) (hf : s.writers.find? (fun p => cfg.keyEq p.1 k) = none)
+    (hsm : cfg.subjMapper s.groups.length = .ok ()) (hdm : cfg.durMapper s.groups.length = .ok ())
+    (hv : cfg.elemMapper x = .ok v)
+    (hdur : (cfg.dgrp s.groups.length).isSome = true ∨ cfg.dsync s.groups.length = none) :
+    ∃ rest, (stepD cfg s (.src (.next x))).out =
+      s.out ++ (.outer (.next (s.groups.length, k)) :: .subDur s.groups.length :: .tap s.groups.length (.next v) ::
+        (if cfg.imm s.groups.length then [.grp s.groups.length (.next v)] else []) ++ rest) := by
+  rw [stepD_new_group cfg s x k v hs hk hf hsm hdm hv, announceD_fresh cfg s k ho hd hdur]
+  obtain ⟨hout, hd2, hw2, hg2⟩ := announced1_facts cfg s k hd
+  generalize announced1 cfg s k = s2 at hout hd2 hw2 hg2
+  have hg3 := modGrp_get s2 s.groups.length (fun r => { r with dur := DurSt.live, dcnt := (cfg.dgrp s.groups.length).getD r.dcnt })
+  rw [hg2] at hg3
+  simp only [Option.map_some] at hg3
+  have hout3 : (emit (modGrp s2 s.groups.length fun r => { r with dur := DurSt.live, dcnt := (cfg.dgrp s.groups.length).getD r.dcnt })
+      (Eff.subDur s.groups.length)).out = s.out ++ [.outer (.next (s.groups.length, k)), .subDur s.groups.length] := by
+    simp [hout]
+  have hg4 : (emit (modGrp s2 s.groups.length fun r => { r with dur := DurSt.live, dcnt := (cfg.dgrp s.groups.length).getD r.dcnt })
+      (Eff.subDur s.groups.length)).groups[s.groups.length]? = _ := hg3
+  generalize (emit (modGrp s2 s.groups.length fun r => { r with dur := DurSt.live, dcnt := (cfg.dgrp s.groups.length).getD r.dcnt })
+      (Eff.subDur s.groups.length)) = t at hout3 hg4
+  unfold writerNextD
+  rw [hg4]
+  simp only [Bool.false_eq_true, if_false]
+  by_cases hi : cfg.imm s.groups.length = true
+  · cases hdg : cfg.dgrp s.groups.length with
+    | none =>
+      refine ⟨[], ?_⟩
+      simp [hdg, writerNext, hg4, hi, hout3]
+    | some n =>
+      cases n with
+      | zero =>
+        obtain ⟨l, hl⟩ := OutExt_durFire cfg (emit (modGrp (emit (modGrp t s.groups.length fun r => { r with wlog := r.wlog ++ [Notif.next v] })
+          (Eff.tap s.groups.length (Notif.next v))) s.groups.length fun r => { r with seen := r.seen ++ [Notif.next v] })
+          (Eff.grp s.groups.length (Notif.next v))) s.groups.length (.next ())
+        refine ⟨l, ?_⟩
+        simp [hdg, hi, hl, hout3]
+      | succ m =>
+        refine ⟨[], ?_⟩
+        simp [hdg, writerNext, modGrp_get, hg4, hi, hout3]
+  · cases hdg : cfg.dgrp s.groups.length with
+    | none =>
+      refine ⟨[], ?_⟩
+      simp [hdg, writerNext, hg4, hi, hout3]
+    | some n =>
+      cases n with
+      | zero =>
+        obtain ⟨l, hl⟩ := OutExt_durFire cfg (emit (modGrp t s.groups.length fun r => { r with wlog := r.wlog ++ [Notif.next v] })
+          (Eff.tap s.groups.length (Notif.next v))) s.groups.length (.next ())
+        refine ⟨l, ?_⟩
+        simp [hdg, hi, hl, hout3]
+      | succ m =>
+        refine ⟨[], ?_⟩
+        simp [hdg, writerNext, modGrp_get, hg4, hi, hout3]
+
+theorem writerTerm_out_active (s : St κ β) (g : Nat) (n : Notif β) (r : Grp κ β) (hg : s.groups[g]? = some r)
+    (hst : r.stopped = false) (hsub : r.sub = .active) :
+    ∃ l, (writerTerm s g n).out = s.out ++ [.tap g n, .grp g n] ++ l ∧ ∀ e ∈ l, Eff.isUnsub e = true := by
+  unfold writerTerm
+  simp only [hg, hst, Bool.false_eq_true, if_false, hsub, if_true]
+  obtain ⟨l, hl, hu⟩ := OutU_subEnd (emit (modGrp (emit (modGrp s g fun r => { r with stopped := true, exc := excOf n, wlog := r.wlog ++ [n] })
+    (Eff.tap g n)) g fun r => { r with seen := r.seen ++ [n] }) (Eff.grp g n)) g
+  exact ⟨l, by rw [hl]; simp, hu⟩
+
+/-- **derived_duration_counts**: while the group-derived duration `g.pipe(skip n)` still has elements to skip, an element
+is delivered (tap, then the subscriber) and the counter goes down; nothing else happens. -/
+theorem derived_duration_counts (cfg : Cfg α κ β) (s : St κ β) (g : Nat) (v : β) (r : Grp κ β) (m : Nat)
+    (hg : s.groups[g]? = some r) (hst : r.stopped = false) (hl : r.dur = .live) (hdg : (cfg.dgrp g).isSome = true)
+    (hc : r.dcnt = m + 1) (hsub : r.sub = .active) :
+    (writerNextD cfg s g v).out = s.out ++ [.tap g (.next v), .grp g (.next v)] ∧
+    (writerNextD cfg s g v).groups[g]? = some { r with dcnt := m, wlog := r.wlog ++ [.next v], seen := r.seen ++ [.next v] } := by
+  have hcond : (r.dur = DurSt.live ∧ (cfg.dgrp g).isSome = true) := ⟨hl, hdg⟩
+  unfold writerNextD
+  simp only [hg, hst, Bool.false_eq_true, if_false, hcond, if_true, hc, Nat.add_one_ne_zero]
+  unfold writerNext
+  simp [hg, hst, hsub, hc, hl, modGrp, emit]
+
+/-- **derived_duration_expires_with_element**: when the counter is exhausted the next element of the group is
+delivered to the tap and to the subscriber attached inside the outer `on_next` *first*, and then — inside the same
+`writer.on_next` — the group completes (expire()): `completed` is the very next notification of both; only
+unsubscriptions follow. -/
+theorem derived_duration_expires_with_element (cfg : Cfg α κ β) (s : St κ β) (g : Nat) (v : β) (r : Grp κ β)
+    (hg : s.groups[g]? = some r) (hst : r.stopped = false) (hl : r.dur = .live) (hdg : (cfg.dgrp g).isSome = true)
+    (hc : r.dcnt = 0) (hsub : r.sub = .active) (hearly : r.subLate = false)
+    (hkey : (s.writers.find? (fun p => cfg.keyEq p.1 r.key)).isSome = true) :
+    ∃ l, (writerNextD cfg s g v).out =
+        s.out ++ [.tap g (.next v), .grp g (.next v), .tap g .completed, .grp g .completed] ++ l ∧
+      ∀ e ∈ l, Eff.isUnsub e = true := by
+  have hcond : (r.dur = DurSt.live ∧ (cfg.dgrp g).isSome = true) := ⟨hl, hdg⟩
+  unfold writerNextD
+  simp only [hg, hst, Bool.false_eq_true, if_false, hcond, and_self, if_true, hc, hsub, hearly]
+  -- the state after delivering v to the tap and the early subscriber
+  generalize hu : (emit (modGrp (emit (modGrp s g fun r => { r with wlog := r.wlog ++ [Notif.next v] }) (Eff.tap g (Notif.next v))) g
+      fun r => { r with seen := r.seen ++ [Notif.next v] }) (Eff.grp g (Notif.next v))) = u
+  have hug : u.groups[g]? = some { r with wlog := r.wlog ++ [.next v], seen := r.seen ++ [.next v] } := by
+    rw [← hu]; simp [modGrp, emit, List.getElem?_modify, hg]
+  have huo : u.out = s.out ++ [.tap g (.next v), .grp g (.next v)] := by rw [← hu]; simp
+  have huw : u.writers = s.writers := by rw [← hu]; rfl
+  simp only [durFire]
+  -- expire(): the key is present, the writer completes
+  unfold expire
+  simp only [hug, huw]
+  cases hf : s.writers.find? (fun p => cfg.keyEq p.1 r.key) with
+  | none => rw [hf] at hkey; cases hkey
+  | some p =>
+    simp only
+    have hwg : (modGrp { u with writers := s.writers.eraseP (fun p => cfg.keyEq p.1 r.key) } g fun r => { r with expired := true }).groups[g]? =
+        some { r with wlog := r.wlog ++ [.next v], seen := r.seen ++ [.next v], expired := true } := by
+      rw [modGrp_get]; simp [hug]
+    obtain ⟨l1, h1, u1⟩ := writerTerm_out_active _ g .completed _ hwg hst hsub
+    have hwo : (modGrp { u with writers := s.writers.eraseP (fun p => cfg.keyEq p.1 r.key) } g fun r => { r with expired := true }).out = u.out := rfl
+    rw [hwo] at h1
+    split
+    · obtain ⟨l2, h2, u2⟩ := OutU_closeDur (writerTerm (modGrp { u with writers := s.writers.eraseP (fun p => cfg.keyEq p.1 r.key) } g
+        fun r => { r with expired := true }) g .completed) g
+      refine ⟨l1 ++ l2, ?_, ?_⟩
+      · rw [h2, h1, huo]; simp
+      · intro e he; rcases List.mem_append.mp he with h | h
+        · exact u1 e h
+        · exact u2 e h
+    · obtain ⟨l2, h2, u2⟩ := OutU_closeDur (writerTerm (modGrp { u with writers := s.writers.eraseP (fun p => cfg.keyEq p.1 r.key) } g
+        fun r => { r with expired := true }) g .completed) g
+      obtain ⟨l3, h3, u3⟩ := OutU_closeDur (closeDur (writerTerm (modGrp { u with writers := s.writers.eraseP (fun p => cfg.keyEq p.1 r.key) } g
+        fun r => { r with expired := true }) g .completed) g) g
+      refine ⟨l1 ++ l2 ++ l3, ?_, ?_⟩
+      · rw [h3, h2, h1, huo]; simp
+      · intro e he
+        rcases List.mem_append.mp he with h | h
+        · rcases List.mem_append.mp h with h | h
+          · exact u1 e h
+          · exact u2 e h
+        · exact u3 e h
 end WinGrp
